@@ -60,7 +60,10 @@ let () =
     match split_ws case with
     | "req" :: f :: toks ->
       let fields = parse_fields (int_of_string f) toks in
-      let fs = List.map snd fields in
+      (* only Cookie fields carry cookie pairs; other fields of the request (e.g. the ones read_http_request consumes
+         before it walks the Cookie fields) must not change the map *)
+      let is_cookie (hdr : n list) = String.lowercase_ascii (String.concat "" (List.map (fun x -> String.make 1 (Char.chr (int_of_n x))) hdr)) = "cookie" in
+      let fs = List.map snd (List.filter (fun (hdr, _) -> is_cookie hdr) fields) in
       (* the model sees the header list of the parsed head: (name, rendered value) per field *)
       let hs = List.map (fun (hdr, segs) -> (hdr, render_field segs)) fields in
       let m = pr_req (request_cookies_of_headers hs) in
@@ -69,7 +72,12 @@ let () =
          | Some obs -> if oracle_request fs obs then "oracle=ok" else
              (match obs with CookiesOk _ -> "oracle=fail@map" | ErrMalformedCookieHeader -> "oracle=fail@rejected")
          | None ->
-           (* another error, a panic, or unparsable text: a failure when the case is inside the statement *)
+           (* another error, a panic, or unparsable text: a failure when the case is inside the statement; a framing
+              error caused by one of the OTHER fields of the case (a transfer coding the library does not support,
+              say) is outside C15's statement *)
+           if List.exists (fun (hdr, _) -> not (is_cookie hdr)) fields
+              && (match itoks with "err" :: d :: _ -> d = "HttpError::UnsupportedTransferEncoding" || d = "HttpError::InvalidContentLength" | _ -> false)
+           then "oracle=ok outside-statement" else
            if fields_ok fs || oracle_request fs ErrMalformedCookieHeader && not (oracle_request fs (CookiesOk []))
            then "oracle=fail@" ^ (match itoks with a :: b :: _ -> a ^ "-" ^ b | _ -> "unparsable")
            else "oracle=ok outside-statement") in
